@@ -260,6 +260,13 @@ public:
                     t1 /= maxval;
                     Scalar p0 = p / maxval;
                     z = maxval * sqrt(abs(p0 * p0 + t0 * t1));
+                    // The Schur form keeps a 2x2 diagonal block only for a pair of complex
+                    // conjugate eigenvalues, so the imaginary part must be positive.
+                    // If the two eigenvalues coincide numerically, z may be rounded to zero;
+                    // then the pair would be taken as real eigenvalues of a triangular T
+                    // in doComputeEigenvectors() and eigenvectors(), which T is not
+                    if (z == Scalar(0))
+                        z = Eigen::NumTraits<Scalar>::epsilon() * maxval;
                 }
                 m_eivalues.coeffRef(i) = Complex(m_matT.coeff(i + 1, i + 1) + p, z);
                 m_eivalues.coeffRef(i + 1) = Complex(m_matT.coeff(i + 1, i + 1) + p, -z);
